@@ -128,6 +128,11 @@ def starts(rng):
     pts = G.star_polygon(rng, n=rng.choice([4, 5, 7]), R=10.0)
     out.append(('Polygon2D', lambda: Polygon2D([P2(p) for p in pts])))
     out.append(('Polygon2D.cw', lambda: Polygon2D([P2(p) for p in pts[::-1]])))
+    # a star polygon that winds twice (every turn the same way, edges crossing): is_convex and is_self_intersecting are both
+    # defined for it and must not influence each other
+    ring = [(G.dy(8 * math.cos(2 * math.pi * i / 5 + 0.3)), G.dy(8 * math.sin(2 * math.pi * i / 5 + 0.3))) for i in range(5)]
+    gram = [ring[(2 * i) % 5] for i in range(5)]
+    out.append(('Polygon2D.pentagram', lambda: Polygon2D([P2(p) for p in gram])))
     bp, rb, rh = G.rpt2(rng, 20), G.dy(rng.uniform(1, 9)), G.dy(rng.uniform(1, 9))
     out.append(('Polygon2D.from_rectangle', lambda: Polygon2D.from_rectangle(P2(bp), Vector2D(0, 1), rb, rh)))
     ns, rr, cp = rng.randint(3, 8), G.dy(rng.uniform(1, 9)), G.rpt2(rng, 20)
@@ -147,6 +152,10 @@ def starts(rng):
     out.append(('Mesh2D.from_polygon_grid', lambda: Mesh2D.from_polygon_grid(Polygon2D([P2(p) for p in cv]), 3.0, 3.0, False)))
     frame = G.rational_frame(rng, special=False); o = G.rpt3(rng, 20)      # tilted: face normals are not along an axis
     out.append(('Mesh3D', lambda: Mesh3D([P3(G.embed(frame, o, p)) for p in v], f)))
+    # a folded (non-planar) triangle mesh: vertex normals really are averages of different face normals
+    fv = [(p[0], p[1], G.dy(rng.uniform(-4, 4))) for p in v]
+    ff = [t for fc in f for t in ([tuple(fc)] if len(fc) == 3 else [(fc[0], fc[1], fc[2]), (fc[2], fc[3], fc[0])])]
+    out.append(('Mesh3D.folded', lambda: Mesh3D([P3(p) for p in fv], ff)))
     f0 = Bd.face3d(rng, nholes=0, n=5); f0d = f0.to_dict()
     out.append(('Face3D', lambda: Face3D.from_dict(f0d)))
     f1d = Bd.face3d(rng, nholes=1, n=6).to_dict()
